@@ -1195,6 +1195,18 @@ fn render_string(s: &[GlyphIn]) -> String {
         .join(" ")
 }
 
+/// libFuzzer entry: the input bytes are the entropy tape (little-endian u32s, zero padded), so the
+/// fuzzer mutates exactly the decisions the generator reads.
+pub fn tape_from_bytes(data: &[u8]) -> Vec<u32> {
+    let mut tape = vec![0u32; TAPE_LEN];
+    for (i, c) in data.chunks(4).take(TAPE_LEN).enumerate() {
+        let mut b = [0u8; 4];
+        b[..c.len()].copy_from_slice(c);
+        tape[i] = u32::from_le_bytes(b);
+    }
+    tape
+}
+
 pub fn check_case(tape: &Vec<u32>, rec: &mut Rec) -> CaseResult {
     let p = build_program(tape);
     check_program(&p, rec)
